@@ -22,7 +22,8 @@ RULE = ("streams of 1-4 documents over printable strings incl. look-alikes of nu
 
 LOOKALIKES = ["1", "1e3", "1.5", "-0", "0x10", "0o7", "true", "false", "yes", "no", "on", "off", "null", "~", "2001-01-01", "2001-01-01T00:00:00Z",
               "---", "+++", "a\n---\nb", "--- x", "# x", "a # b", ": ", "a: b", "- x", "[1]", "{a: 1}", " lead", "trail ", "'", "\"", "'q'", "\"dq\"",
-              "*a", "&a", "!t", "|", ">", "%", "@", "`", "=", "<<", "a\tb", "é", "line1\nline2", "", " ", "\\", "\\n", "1_000", ".5", "+1", "1.", "inf", ".nan"]
+              "*a", "&a", "!t", "|", ">", "%", "@", "`", "=", "<<", "a\tb", "é", "line1\nline2", "", " ", "\\", "\\n", "1_000", ".5", "+1", "1.", "inf", ".nan",
+              "x\n", "keep\n\n", "echo one\necho two\n", "\n", "\n\n", " \n", "a\n b\n", "\nlead", "tab\t\n", "--- \n", "a\r\nb", "- a\n- b\n", "k: v\n"]
 SAFE_KEYS = ["a", "b", "c", "k1", "x y", "é", "1", "true", "null", "a.b", "#k", "k:", "-", "~"]
 NUMS = [0, 1, -1, 42, 2147483648, -9223372036854775807, 9223372036854775807, F("0.5"), F("0.1"), F("1e+100"), F("-2.25"), F("1e-07"), F("123456.789")]
 
@@ -211,16 +212,20 @@ def replay(ctx, payload):
 
 
 def matches_known(k, v):
-    # only a failure whose stream has a map key "<<" and that concerns YAML is the recorded finding
-    if k.get("class") != "yaml-key-is-merge-token":
-        return False
-    def has_key(x):
-        if isinstance(x, dict):
-            return "<<" in x or any(has_key(y) for y in x.values())
-        if isinstance(x, list):
-            return any(has_key(y) for y in x)
-        return False
-    return has_key(core.from_jsonable(v.get("stream", []))) and "yaml" in v.get("why", "") or "yml" in v.get("why", "")
+    st = core.from_jsonable(v.get("stream", []))
+    why = v.get("why", "")
+    yamlish = ("yaml" in why) or ("yml" in why)
+    if k.get("class") == "yaml-key-is-merge-token":
+        def has_key(x):
+            if isinstance(x, dict):
+                return "<<" in x or any(has_key(y) for y in x.values())
+            if isinstance(x, list):
+                return any(has_key(y) for y in x)
+            return False
+        return yamlish and has_key(st)
+    if k.get("class") == "yaml-string-leading-newline":
+        return yamlish and any(s.startswith("\n") for s in gen.walk_strings(st))
+    return False
 
 
 def check_known(ctx, k):
